@@ -51,29 +51,33 @@ Lemma set_at_in_range {C R} (l : list C) i f (p : R) k :
   set_at l i f p k = k (update_nth (Z.to_nat i) f l).
 Proof. intros H1 H2. unfold set_at. rewrite H1, H2. reflexivity. Qed.
 
+(* The script does not depend on the order of the (independent) stores, on whether the flip is
+   written `*= -1` or `= -x`, before or after the other stores, or on tuple assignment: it
+   normalises every store to update_nth, fuses them, and compares the resulting record field by
+   field. *)
+Ltac apply_update_tie upd :=
+  unfold apply_update;
+  match goal with
+  | |- context [Z.of_nat (length ?l) <=? u_index ?u] =>
+      let Ehi := fresh "Ehi" in let Eneg := fresh "Eneg" in let Er := fresh "Er" in
+      destruct (Z.of_nat (length l) <=? u_index u) eqn:Ehi; [reflexivity|];
+      destruct (u_index u <? 0) eqn:Eneg;
+      [ cbv zeta; destruct (u_rev u); unfold set_at; rewrite ?Eneg; reflexivity
+      | cbv zeta; destruct (u_rev u) eqn:Er;
+        repeat (rewrite set_at_in_range; [|exact Eneg|rewrite ?update_nth_length; exact Ehi]);
+        rewrite ?update_nth_twice; apply (f_equal AU_Ok); apply update_nth_ext;
+        let x := fresh "x" in intros x; destruct x; unfold upd; rewrite ?Er; cbn;
+        repeat match goal with
+               | |- context [?a * -1] => replace (a * -1) with (- a) by lia
+               end;
+        reflexivity ]
+  end.
+
 Lemma gen_way_apply_update_ok ns u : gen_way_apply_update ns u = apply_update upd_node ns u.
-Proof.
-  unfold gen_way_apply_update, apply_update.
-  destruct (Z.of_nat (length ns) <=? u_index u) eqn:Ehi; [reflexivity|].
-  destruct (u_index u <? 0) eqn:Eneg.
-  - unfold set_at at 1. rewrite Eneg. reflexivity.
-  - repeat (rewrite set_at_in_range; [|exact Eneg|rewrite ?update_nth_length; exact Ehi]).
-    rewrite !update_nth_twice. reflexivity.
-Qed.
+Proof. unfold gen_way_apply_update. apply_update_tie upd_node. Qed.
 
 Lemma gen_rel_apply_update_ok ms u : gen_rel_apply_update ms u = apply_update upd_member ms u.
-Proof.
-  unfold gen_rel_apply_update, apply_update.
-  destruct (Z.of_nat (length ms) <=? u_index u) eqn:Ehi; [reflexivity|].
-  destruct (u_index u <? 0) eqn:Eneg.
-  - unfold set_at at 1. rewrite Eneg. reflexivity.
-  - repeat (rewrite set_at_in_range; [|exact Eneg|rewrite ?update_nth_length; exact Ehi]).
-    cbv zeta. unfold upd_member. destruct (u_rev u).
-    + try (rewrite set_at_in_range; [|exact Eneg|rewrite ?update_nth_length; exact Ehi]).
-      rewrite !update_nth_twice. apply (f_equal AU_Ok). apply update_nth_ext. intros x. cbn.
-      f_equal. f_equal. lia.
-    + rewrite !update_nth_twice. reflexivity.
-Qed.
+Proof. unfold gen_rel_apply_update. apply_update_tie upd_member. Qed.
 
 (* the loop of ApplyUpdatesUpTo in terms of the regenerated applyUpdate: one iteration *)
 Lemma apply_loop_cons {C} (upd : update -> C -> C) t u r cs pend :
@@ -348,31 +352,99 @@ Proof.
   cbn. f_equal. apply IH; [lia|]. intros j Hj. exact (H (S j) ltac:(cbn; lia)).
 Qed.
 
+(* the compaction loop, summarised *)
+Lemma compact_final ns L : length L = length ns ->
+  exists cur',
+    loop_fold (compact_body ns) L (0, L, 0)
+    = LNext (Z.of_nat (length L), cur', Z.of_nat (length (keep_annotated ns L))) /\
+    firstn (length (keep_annotated ns L)) cur' = keep_annotated ns L.
+Proof.
+  intro HlenL.
+  destruct (compact_loop ns L (eq_sym HlenL) L [] L eq_refl eq_refl) as (cur' & Hloop & Hcl & Hk).
+  - intros j Hj. cbn in Hj. lia.
+  - intros j _. reflexivity.
+  - cbn [length firstn keep_annotated] in Hloop. change (Z.of_nat 0) with 0%Z in Hloop.
+    exists cur'. split; [exact Hloop|]. apply firstn_of_prefix; [|exact Hk].
+    pose proof (keep_annotated_length ns L) as Hkl. unfold point in *. lia.
+Qed.
+
+(* the same loop with the state stored as (i, count, cur) *)
+Definition compact_body' (ns : list wnode) (st : Z * Z * list point) (_ : point)
+  : lstep (Z * Z * list point) (option (list point)) :=
+  let '(i, count, cur) := st in
+  match get_at ns i with
+  | Some n =>
+      if (n_ver n =? 0) && (n_lon n =? 0) && (n_lat n =? 0) then LNext (i + 1, count, cur)
+      else match get_at cur i with
+           | Some x => set_at cur count (fun _ => x) (LRet None) (fun cur' => LNext (i + 1, count + 1, cur'))
+           | None => LRet None
+           end
+  | None => LRet None
+  end.
+
+Lemma compact_body'_loop ns : forall l i cur count,
+  loop_fold (compact_body' ns) l (i, count, cur) =
+  match loop_fold (compact_body ns) l (i, cur, count) with
+  | LNext (i', cur', count') => LNext (i', count', cur')
+  | LRet r => LRet r
+  end.
+Proof.
+  induction l as [|x l IH]; intros i cur count; [reflexivity|].
+  rewrite !loop_fold_cons. unfold compact_body', compact_body.
+  destruct (get_at ns i) as [n|]; [|reflexivity].
+  destruct ((n_ver n =? 0) && (n_lon n =? 0) && (n_lat n =? 0)); [apply IH|].
+  destruct (get_at cur i) as [y|]; [|reflexivity].
+  unfold set_at. destruct ((count <? 0) || (Z.of_nat (length cur) <=? count)); [reflexivity|apply IH].
+Qed.
+
+Lemma loop_fold_filter {A S R} (p : A -> bool) (body : S -> A -> lstep S R) (l : list A) : forall s,
+  loop_fold body (filter p l) s = loop_fold (fun s x => if p x then body s x else LNext s) l s.
+Proof.
+  induction l as [|a l IH]; intro s; cbn [filter]; [reflexivity|].
+  rewrite (loop_fold_cons (fun s x => if p x then body s x else LNext s)).
+  destruct (p a).
+  - rewrite loop_fold_cons. destruct (body s a); [apply IH|reflexivity].
+  - apply IH.
+Qed.
+
+(* one iteration of the update loop, whatever its spelling: separate or merged guards, After
+   tested inline or through Updates.UpTo, `idx >= len` skipped or `idx < len` taken, two
+   component stores or one store of the point *)
+Ltac lsat_pointwise t :=
+  let ls := fresh "ls" in let u := fresh "u" in
+  intros ls u; unfold lsat_body; cbv beta zeta; unfold point;
+  destruct (t <? u_ts u); cbn [negb orb]; try reflexivity;
+  rewrite ?Z.ltb_antisym;
+  let Ehi := fresh "Ehi" in let Eneg := fresh "Eneg" in
+  match goal with |- context [Z.of_nat (@length ?A ls) <=? u_index u] =>
+    destruct (Z.of_nat (@length A ls) <=? u_index u) eqn:Ehi end; cbn [negb orb]; try reflexivity;
+  destruct (u_index u <? 0) eqn:Eneg;
+  [ unfold set_at; rewrite ?Eneg; reflexivity
+  | repeat (rewrite set_at_in_range; [|exact Eneg|rewrite ?update_nth_length; exact Ehi]);
+    rewrite ?update_nth_twice; apply f_equal; apply update_nth_ext; intros []; reflexivity ].
+
 Lemma gen_way_line_string_at_ok ns us t :
   gen_way_line_string_at ns us t = line_string_at t ns us.
 Proof.
   unfold gen_way_line_string_at, line_string_at, line_string_at_gen. cbv zeta.
   rewrite (points_of_nodes ns []). cbn [app].
-  rewrite (loop_fold_ext _ (lsat_body t)).
-  2:{ intros ls u. reflexivity. }
+  rewrite ?gen_up_to_ok. unfold up_to. rewrite ?loop_fold_filter.
+  rewrite (loop_fold_ext _ (lsat_body t)) by (lsat_pointwise t).
   rewrite lsat_body_loop.
-  destruct (lsat_loop false t us (map node_point ns)) as [L|] eqn:EL; [|reflexivity].
-  cbv beta iota zeta.
+  destruct (lsat_loop false t us (map node_point ns)) as [L|] eqn:EL; cbv beta iota zeta; [|reflexivity].
   pose proof (lsat_loop_length _ _ _ _ _ EL) as HlenL. rewrite map_length in HlenL.
-  rewrite (loop_fold_ext _ (compact_body ns)).
-  2:{ intros [[i cur] count] x. reflexivity. }
-  destruct (compact_loop ns L (eq_sym HlenL) L [] L eq_refl eq_refl) as (cur' & Hloop & Hcl & Hk).
-  - intros j Hj. cbn in Hj. lia.
-  - intros j _. reflexivity.
-  - cbn [length firstn keep_annotated] in Hloop. change (Z.of_nat 0) with 0%Z in Hloop.
-    match goal with
-    | |- match ?X with _ => _ end = _ =>
-        replace X with (@LNext (Z * list point * Z) (option (list point))
-                               (Z.of_nat (length L), cur', Z.of_nat (length (keep_annotated ns L))))
-          by (symmetry; exact Hloop)
-    end.
-    f_equal. rewrite Nat2Z.id. apply firstn_of_prefix; [|exact Hk].
-    pose proof (keep_annotated_length ns L) as Hkl. unfold point in *. lia.
+  destruct (compact_final ns L HlenL) as (cur' & Hloop & Hfirst).
+  first
+    [ rewrite (loop_fold_ext _ (compact_body ns)) by (intros [[i cur] count] x; reflexivity)
+    | rewrite (loop_fold_ext _ (compact_body' ns)) by (intros [[i count] cur] x; reflexivity);
+      rewrite compact_body'_loop ].
+  match goal with
+       | |- context [loop_fold (compact_body ns) L ?s0] =>
+           replace (loop_fold (compact_body ns) L s0)
+             with (@LNext (Z * list point * Z) (option (list point))
+                          (Z.of_nat (length L), cur', Z.of_nat (length (keep_annotated ns L))))
+             by (symmetry; exact Hloop)
+       end; cbv beta iota zeta; f_equal; rewrite Nat2Z.id; exact Hfirst.
 Qed.
 
 (* ---- the sorts are sort.Sort on the two Less types ---- *)
